@@ -137,7 +137,7 @@ func hmShape(fd *ast.FuncDecl) string {
 // wgShape records how bar_wait_group.go's methods use the mutex and the condition variable: the condition of the loop
 // around cond.Wait, the condition under which Add broadcasts, and whether each method body begins by locking the mutex.
 // The receiver's name is normalised to g.
-func wgShape(fd *ast.FuncDecl, consts map[string]string) {
+func wgShape(fd *ast.FuncDecl, consts map[string]string, fields map[string]string) {
 	rn := "g"
 	if len(fd.Recv.List) > 0 && len(fd.Recv.List[0].Names) > 0 {
 		rn = fd.Recv.List[0].Names[0].Name
@@ -150,7 +150,13 @@ func wgShape(fd *ast.FuncDecl, consts map[string]string) {
 			t = strings.ReplaceAll(t, "!"+rn+".", "!g.")
 			t = strings.TrimSpace(t)
 		}
-		return t
+		// the struct's fields by their types: the mutex is mu, the count is n, the condition variable is zero
+		for old, canon := range fields {
+			if old != canon {
+				t = strings.ReplaceAll(t, "g."+old, "g.\x00"+canon)
+			}
+		}
+		return strings.ReplaceAll(t, "\x00", "")
 	}
 	// a condition as the sorted list of its conjuncts (operands of && have no side effects here)
 	var conj func(e ast.Expr) []string
@@ -190,8 +196,12 @@ func wgShape(fd *ast.FuncDecl, consts map[string]string) {
 		if sel.Sel.Name != "Wait" && sel.Sel.Name != "Broadcast" && sel.Sel.Name != "Signal" {
 			return true
 		}
-		if !strings.HasSuffix(norm(sel.X), ".zero") {
-			return true
+		if x := norm(sel.X); !strings.HasSuffix(x, ".zero") {
+			// a local holding the condition variable (cond := g.zero ...; cond.Wait()) counts as well; a method of the
+			// group itself (g.Wait()) or of the mutex does not
+			if _, isIdent := sel.X.(*ast.Ident); !isIdent || x == "g" {
+				return true
+			}
 		}
 		key := "wg_" + name + "_" + sel.Sel.Name
 		consts[key] = "unguarded"
@@ -218,6 +228,44 @@ func wgShape(fd *ast.FuncDecl, consts map[string]string) {
 		}
 		return true
 	})
+}
+
+// wgFields maps the field names of struct barWaitGroup to canonical names by their types.
+func wgFields(f *ast.File) map[string]string {
+	out := map[string]string{}
+	for _, d := range f.Decls {
+		gd, ok := d.(*ast.GenDecl)
+		if !ok {
+			continue
+		}
+		for _, sp := range gd.Specs {
+			ts, ok := sp.(*ast.TypeSpec)
+			if !ok || ts.Name.Name != "barWaitGroup" {
+				continue
+			}
+			st, ok := ts.Type.(*ast.StructType)
+			if !ok {
+				continue
+			}
+			for _, fl := range st.Fields.List {
+				canon := ""
+				switch text(fl.Type) {
+				case "sync.Mutex":
+					canon = "mu"
+				case "int", "int64", "int32":
+					canon = "n"
+				case "*sync.Cond":
+					canon = "zero"
+				}
+				for _, nm := range fl.Names {
+					if canon != "" {
+						out[nm.Name] = canon
+					}
+				}
+			}
+		}
+	}
+	return out
 }
 
 func isDoneKind(k string) bool { return k == "KDone" || k == "KCtxDone" || k == "KBsOk" }
@@ -262,7 +310,7 @@ func main() {
 				hmShapes = append(hmShapes, [2]string{name, hmShape(fd)})
 			}
 			if recv == "barWaitGroup" {
-				wgShape(fd, consts)
+				wgShape(fd, consts, wgFields(f))
 			}
 			depth := 0
 			var walk func(n ast.Node) bool
